@@ -323,15 +323,22 @@ class ConformationContainer:
         Yields:
             covalently coupled systems
         """
-        groups = set(groups)
+        # keep the groups in their order: a set of groups is ordered by object
+        # address, which made the choice between coupled groups of equal pKa
+        # (and the order of display swaps) differ from run to run
+        groups = list(groups)
         while len(groups) > 0:
             # extract a system of coupled groups ...
             system: Set[Group] = set()
             self.get_a_coupled_system_of_groups(
-                groups.pop(), system, get_coupled_groups)
+                groups[0], system, get_coupled_groups)
+            ordered = [group for group in groups if group in system]
+            ordered_ids = {id(group) for group in ordered}
+            ordered += [group for group in system
+                        if id(group) not in ordered_ids]
             # ... and remove them from the list
-            groups -= system
-            yield system
+            groups = [group for group in groups if group not in system]
+            yield ordered
 
     def get_a_coupled_system_of_groups(self, new_group: Group,
                                        coupled_groups: Set[Group],
